@@ -243,7 +243,7 @@ def run_tlc(module, cfg, workers=None, timeout=600, simulate=None, depth=None, e
             res.violated = m.group(1) or m.group(2) or "temporal"
         if "Deadlock reached" in res.out and not res.violated:
             res.violated = "Deadlock"
-        if "Postcondition" in res.out and "violated" in res.out or "POSTCONDITION" in res.out and "false" in res.out.lower():
+        if re.search(r"Postcondition \S+ .*is false", res.out) or ("Postcondition" in res.out and "violated" in res.out):
             res.postcondition_failed = True
         for m in _RE_COV.finditer(res.out):
             res.coverage[m.group(1)] = res.coverage.get(m.group(1), 0) + int(m.group(4))
